@@ -1349,6 +1349,21 @@ def m_saturating_sub(eng, st, fr, fn, args, t):
     return _ret(st, ("bin", "Sub", ("max", args[0], args[1]), args[1], ty))
 
 
+def m_checked_sub(eng, st, fr, fn, args, t):
+    """unsigned a.checked_sub(b): None when a < b, else Some(a - b)"""
+    ty = None
+    for cand in ("usize", "u8", "u16", "u32", "u64", "u128"):
+        if "<impl %s>" % cand in fn.get("path", "") or fn.get("impl_self") == cand:
+            ty = cand
+    if ty is None:
+        return None
+    a, b = args[0], args[1]
+    out = []
+    for (s2, lt) in _fork_bool(eng, st, mk_bin("Lt", a, b)):
+        out.append((s2, mk_none() if lt else mk_some(("bin", "Sub", a, b, ty))))
+    return out
+
+
 ITER = "core::iter::traits::iterator::Iterator"
 
 
@@ -1570,6 +1585,9 @@ DEFAULT_MODELS = {
     "core::option::Option::<T>::unwrap_or_else": m_opt_unwrap_or_else,
     "core::option::Option::<T>::map_or": m_opt_map_or,
     "core::result::Result::<T, E>::unwrap_or_else": m_res_unwrap_or_else,
+    "core::num::<impl usize>::checked_sub": m_checked_sub,
+    "core::num::<impl u32>::checked_sub": m_checked_sub,
+    "core::num::<impl u64>::checked_sub": m_checked_sub,
     "core::num::<impl usize>::saturating_sub": m_saturating_sub,
     "core::num::<impl u32>::saturating_sub": m_saturating_sub,
     "core::num::<impl u64>::saturating_sub": m_saturating_sub,
